@@ -43,10 +43,10 @@ def run(ck: Check):
         n = r.randint(2, 24)
         tc = (b"", [bytes([97 + j]) for j in range(n)], [True] * n, b"")
         limit = r.choice([0, 0, 1, 5, 10])
-        t, clock = 100, []
+        t, clock = (100 if i % 2 else 100.25), []
         for _ in range(200):
             clock.append(t)
-            t += r.choice([0, 0, 1, 1, limit, limit + 1])
+            t += r.choice([0, 0, 1, 1, limit, limit + 1]) if i % 2 else r.choice([0, 0.25, 0.5, 0.75, 1.25, limit - 0.25, limit + 0.5])
         cfg = dict(r.choice(grid))
         cfg["limit"] = limit
         v = "Y" + "".join(r.choice("YN") for _ in range(400))
